@@ -275,6 +275,11 @@ func c06Replay(c *Ctx) {
 		if mem != 0 {
 			opts = append(opts, buffer.MemRequestBodyBytes(mem))
 		}
+		if i%4 == 1 {
+			// verbose mode with a Logger that really formats what it is given (the request is dumped before it is served)
+			opts = append(opts, buffer.Verbose(true), buffer.Logger(fmtLogger{}))
+			c.Count("cases_verbose", 1)
+		}
 		buf, err := buffer.New(h, opts...)
 		if err != nil {
 			c.Violation("constructor", err.Error(), nil)
@@ -305,6 +310,11 @@ func c06Replay(c *Ctx) {
 		req.Header.Add("X-Client-Multi", "one")
 		req.Header.Add("X-Client-Multi", "two")
 		req.Header.Set("Content-Type", "application/octet-stream")
+		if r.IntN(2) == 0 {
+			req.Header.Set("Authorization", "Bearer "+randToken(r, 12))
+			req.Header.Set("Proxy-Authorization", "Basic "+randToken(r, 8))
+			req.Header.Set("Cookie", "session="+randToken(r, 10))
+		}
 		for k := r.IntN(4); k > 0; k-- {
 			req.Header.Add("X-Rand-"+randToken(r, 3), randToken(r, 1+r.IntN(20)))
 		}
